@@ -124,6 +124,12 @@ Theorem C11_no_class_skipped : forall p m c, In p (map mc_name M) -> In m (membe
 Proof. intros p m c. exact (parentinfo_no_class_skipped members (map mc_name M) c Inst_C11.no_class_skipped p m). Qed.
 Print Assumptions C11_no_class_skipped.
 
+(* instance: the keywords the factories accept are tested by membership in the list of member names (the names info() reports):
+   C09_typo / C09_never_ignored of the model then apply to the real argument check *)
+Theorem C11_arg_check_is_list_membership : arg_check_okb Gen_Members.arg_check = true.
+Proof. exact Inst_C11.arg_check_is_list_membership. Qed.
+Print Assumptions C11_arg_check_is_list_membership.
+
 (* 4. get_by_id (NeuroMLDocument: is_doc = true, Network: false), for ALL documents, ids and counter values.
       `fixed = true` is the code with fixes/C11-get-by-id-unsortable.patch, `false` the code as it is. *)
 Section GetById.
